@@ -182,3 +182,57 @@ def natural_loops(f):
                             st.append(p)
                 loops.append((t, body, b))
     return loops
+
+
+def edge_guards(f, bb):
+    """[(branch bb, expr, side)]: bool branches one of whose edges every path from the entry to `bb`
+    must take (edge dominance) while the other edge is not such — the form-independent notion of
+    "bb runs only if the condition is <side>" (covers if/else nesting and early-return guards alike)"""
+    out = []
+    entry = 0
+    for b2 in f.reachable_blocks():
+        br = bool_branch(f, b2)
+        if br is None:
+            continue
+        e, tbb, fbb = br
+        if tbb == fbb:
+            continue
+        need_t = not _reach_without_edge(f, entry, bb, b2, tbb)
+        need_f = not _reach_without_edge(f, entry, bb, b2, fbb)
+        if need_t != need_f:
+            out.append((b2, e, need_t))
+    return out
+
+
+def _reach_without_edge(f, src, dst, eb, et):
+    """is dst reachable from src without traversing the edge eb->et?"""
+    if src == dst:
+        return True
+    seen = {src}
+    dq = deque([src])
+    while dq:
+        b = dq.popleft()
+        for s in f.succ(b):
+            if b == eb and s == et:
+                continue
+            if s == dst:
+                return True
+            if s not in seen:
+                seen.add(s)
+                dq.append(s)
+    return False
+
+
+NEGATE = {'Ge': 'Lt', 'Gt': 'Le', 'Le': 'Gt', 'Lt': 'Ge', 'Eq': 'Ne', 'Ne': 'Eq'}
+FLIP = {'Ge': 'Le', 'Gt': 'Lt', 'Le': 'Ge', 'Lt': 'Gt', 'Eq': 'Eq', 'Ne': 'Ne'}
+
+
+def cmp_on_side(e, side):
+    """(op, a, b) that holds when the branch on e takes `side`, or None"""
+    c = cmp_of(e)
+    if c is None:
+        return None
+    op, a, b, neg = c
+    if neg != (not side):
+        op = NEGATE[op]
+    return op, a, b
